@@ -629,8 +629,15 @@ func (w *World) control(prefix []int) {
 				w.Outcome = "completed"
 				return
 			}
-			if w.now() >= horizon || w.now()-w.lastAct >= w.idleH {
-				w.classifyStuck(threads, w.now() >= horizon)
+			if w.now()-w.lastAct >= w.idleH {
+				w.classifyStuck(threads, false)
+				return
+			}
+			// at the horizon with something still alive the execution is cut off; when no command is alive
+			// any more it goes on until it is idle (outcome "stuck": the final oracles can judge it) or, if
+			// timers keep it busy, until a little later
+			if w.now() >= horizon && (w.anyAlive() || w.now() >= horizon+w.idleH+20*time.Second) {
+				w.classifyStuck(threads, true)
 				return
 			}
 			time.Sleep(quantum)
